@@ -1166,7 +1166,9 @@ fn binder_scenarios(t: &mut Trace, rng: &mut Rng, thorough: bool) {
         "binder bind t=10000",
         "binder unbind t=5",
         "binder bind_many ts=10000..10002", // one slot free, batch of two
-        "binder bind_many ts=10000..10001", // batch of one into the last slot
+        // batch of one into the last slot (an ACCEPTED batch at this size costs ~5 s: the quick tier
+        // sends one of them, above, and fills this slot through bind_token)
+        if thorough { "binder bind_many ts=10000..10001" } else { "binder bind t=10000" },
         "binder bind t=10001",
         "binder bind_many ts=10001..10002",
     ] {
